@@ -450,7 +450,7 @@ class Scheduler(Subject):
                 ] = ParallelLoopCounter()
         else:
             self.petri_net_generator.generate_empty_parallel_loop(
-                first_transition_uuid, second_transition_uuid
+                first_transition_uuid, second_transition_uuid, node
             )
 
         self.petri_net_generator.remove_place_on_runtime(parallel_loop_started)
